@@ -428,6 +428,9 @@ def gen_setup_server(seed, opts=None):
         script.append({'at': 0.0, 'frame': frame})
         if variant == 'resume_frame_after_setup':
             script.append({'at': 0.01, 'frame': {'t': 'RESUME', 'token': '0102'}})
+    if rng.random() < 0.4:
+        # honouring the peer's leases (as a requester) is independent of granting leases (as a responder)
+        cfg['honor_lease'] = True
     # a probe request afterwards (served only when the setup was acceptable; never disturbs the verdict)
     plan = {'exec': 'peer', 'profile': 'setup-server', 'seed': seed, 'role': 'server', 'variant': variant,
             'framing': _pick(rng, [(3, 'tcp'), (1, 'ws')]), 'loop': {'eps': 0.0}, 'endpoint': cfg,
